@@ -277,6 +277,10 @@ func populateStruct(originalVal reflect.Value, vs []FieldValueTuple, inputIndex 
 				return inputIndex, false, fmt.Errorf("nested value %s under %s cannot be set", nestedVal, originalVal)
 			}
 
+			if inputIndex >= len(vs) || !vs[inputIndex].Value.IsValid() {
+				return inputIndex, false, fmt.Errorf("error unmangling %s: no flattened value for field %d (%q)",
+					originalVal.Type(), i, val.Type().Field(i).Name)
+			}
 			if !vs[inputIndex].Value.Type().AssignableTo(nestedVal.Type()) {
 				return inputIndex, false, fmt.Errorf("error unmangling. Expected type %s. Actual type %s", vs[inputIndex].Value.Type(), nestedVal.Type())
 			}
